@@ -19,6 +19,7 @@ import IgrisModel.C06.Lemmas
 import IgrisModel.C06.LemGrammar2
 import IgrisModel.C06.LemN
 import IgrisModel.C06.LemR3b
+import IgrisModel.C06.Model2
 namespace Igris.C06
 open Iso
 
@@ -722,6 +723,48 @@ theorem loopN_print_i_ints (fuel : Nat) (cs : List Char) (args : List Arg) (out 
   refine ⟨h1, hb, ?_⟩
   exact printI_ints_range u sg w m ops base emit dpc h1 hw0 hw1 hm0.1 (by omega)
 
+/-- the closed form the driver runs (`vsnprintfFast`, linear in the output) IS `vsnprintf` — the fold of the
+callback `snprint_printchar` over the characters — for every destination, size, format and argument list -/
+theorem vsnprintf_fast_eq (mem : List Char) (n : Nat) (fmt : List Char) (args : List Arg) :
+    vsnprintfFast mem n fmt args = vsnprintf mem n fmt args := by
+  unfold vsnprintfFast
+  split
+  · rename_i hn
+    cases h : printf fmt args with
+    | done out pc =>
+      rw [vsnprintf_spec mem n fmt args out pc h hn, printf_count _ _ _ _ h]
+    | fault => simp [vsnprintf, h]
+    | badarg => simp [vsnprintf, h]
+    | unsupported => simp [vsnprintf, h]
+    | diverged => simp [vsnprintf, h]
+  · rfl
+
+/-- the same for the variadic entry -/
+theorem snprintf_fast_eq (mem : List Char) (n : Nat) (fmt : List Char) (args : List Arg) :
+    snprintfFast mem n fmt args = snprintf mem n fmt args :=
+  vsnprintf_fast_eq mem n fmt args
+
+/-- print_s's `int`s (open item "`(int)strlen` of a %s argument of 2^31 or more bytes"): whenever the count
+print_s returns fits an `int` — and `loopN` answers `intovf` when it does not — the length it measured
+(`(int)strnlen(...)` / `(int)strlen(...)`, first element of `printSInts`) fits an `int`, so the cast preserved the
+value, and so do `space_count` and `pc` after every `pc +=`.  A string of 2^31 or more bytes that is printed
+in full therefore always ends in `intovf`: the model never claims a result for it -/
+theorem print_s_ints_in_range (mem : List Char) (width maxLen : Int) (ops : Ops) (out : List Char) (pc : Int)
+    (h : printS mem width maxLen ops = some (out, pc)) (hw0 : 0 ≤ width) (hpc : pc ≤ INT_MAX) :
+    printSInts mem width maxLen ops ≠ [] ∧
+    ∀ x ∈ printSInts mem width maxLen ops, 0 ≤ x ∧ x ≤ INT_MAX := by
+  unfold printS at h
+  unfold printSInts
+  cases hm : (if ops.chr then (if 1 ≤ mem.length then some 1 else none)
+         else if ops.prec then strnlen mem maxLen.toNat else strlen mem) with
+  | none => simp [hm] at h
+  | some n =>
+    simp only [hm] at h ⊢
+    refine ⟨by simp, ?_⟩
+    unfold INT_MAX at hpc ⊢
+    cases hl : ops.left <;> simp only [hl] at h ⊢ <;> simp at h ⊢ <;> obtain ⟨_, h2⟩ := h <;>
+      (split at h2 <;> (try split) <;> omega)
+
 /-! ## non-vacuity: the hypotheses above are satisfiable on non-trivial inputs -/
 
 -- a format with literal text, flags, `*` width, precision, length modifier, string with precision
@@ -788,5 +831,27 @@ example : guardFree 20 "%4294967301d".toList [.int 1] = false := by decide
 example : printfN "x=%d%n|".toList [.int 42, .ptr 8] = .done "x=42|".toList 5 [⟨8, 4, 4, 4⟩] := by decide
 example : printfN "x=%5d|".toList [.int 42] = .done "x=   42|".toList 8 [] := by decide
 example : printf "x=%5d|".toList [.int 42] = .done "x=   42|".toList 8 := by decide
+
+
+-- round 3b: printf_p_field (a negative `*` width), canon_ptr_text on the rendering with significant digits only
+example : printf "%*p".toList [.int (BitVec.ofInt 32 (-20)), .ptr 0x7ffc1234]
+    = .done "0x000000007ffc1234  ".toList 20 := by decide
+example : PtrText 0x7ffc1234 "0x7ffc1234".toList := ⟨"7ffc1234".toList, by decide, rfl, by decide⟩
+example : PtrText 0 "0x0".toList := ⟨['0'], by decide, rfl, by decide⟩
+example : canonPtrText "0x7ffc1234".toList = some "0x000000007ffc1234".toList := by decide
+
+-- loopN_print_i_ints: the print_i call of `%+08.3d` of 42; a directive that calls print_s has none
+example : printICall "%+08.3d".toList [.int 42]
+    = some (42, true, 8, 3, { sign := true, zero := true, prec := true }, 10) := by decide
+example : printICall "%5s".toList [.str ['a', NUL]] = none := by decide
+example : loopN 9 "%+08.3d".toList [.int 42] [] 0 [] = .done "    +042".toList 8 [] := by decide
+
+-- print_s_ints_in_range: `%-5.2s` of "abc"
+example : printS ['a', 'b', 'c', NUL] 5 2 { left := true, prec := true } = some ("ab   ".toList, 5) := by decide
+example : printSInts ['a', 'b', 'c', NUL] 5 2 { left := true, prec := true } = [2, 3, 0, 2, 5] := by decide
+
+-- vsnprintf_fast_eq: a truncating call through the closed form
+example : snprintfFast ['x', 'x', 'x', 'y', 'z'] 3 "%s=%d".toList [.str ['a', 'b', NUL], .int 7]
+      = some (['a', 'b', NUL, 'y', 'z'], 4) := by decide
 
 end Igris.C06
